@@ -6,4 +6,6 @@ CONSTANTS NameSeq <- TraceNames
 INVARIANT TrEmit
 INVARIANT RoundTrip
 INVARIANT VariedFollows
+INVARIANT StepsFollow
+INVARIANT StepsizesDomain
 CHECK_DEADLOCK FALSE
